@@ -231,8 +231,11 @@ theorem rlLoop_spec (fuel rs : Nat) (line : List Char) (st : File CU) (r : Reade
               apply List.length_pos_iff.2; intro hh; apply hde; simp [hh]
             have hdlen : data.length ≤ R.length := by
               rw [hdata, List.length_take]; omega
-            have := ih (if rs < 8000 then rs * 2 else rs) (line ++ data) st2 r2 (R.drop data.length) hs2
-              (by split <;> omega)
+            have := ih (if rs < C18.Generated.CODECS_READSIZE_CAP then rs * C18.Generated.CODECS_READSIZE_FACTOR else rs)
+              (line ++ data) st2 r2 (R.drop data.length) hs2
+              (by split
+                  · exact Nat.mul_pos hrs (by decide)
+                  · exact hrs)
               ⟨by rw [hsp]; simp, by rw [← hone]; simpa using hb⟩
               (by rw [List.length_drop]; omega)
             rw [← hR] at this
@@ -318,8 +321,8 @@ theorem Reader.readline_spec (st : File CU) (r : Reader) (R : List Char) (h : RS
       rw [hR, pend_of_nil r hl, List.length_append]
       have := RC_len st r X p hrc
       omega
-    have := rlLoop_spec (r.charbuf.length + st.rest.length + 2) 72 [] st r R ⟨⟨X, p, hrc, hR⟩, hin⟩
-      (by omega) ⟨by simp [splitL], by simp [endsWithBrk]⟩ hlen
+    have := rlLoop_spec (r.charbuf.length + st.rest.length + 2) C18.Generated.CODECS_READLINE_SIZE [] st r R
+      ⟨⟨X, p, hrc, hR⟩, hin⟩ (by decide) ⟨by simp [splitL], by simp [endsWithBrk]⟩ hlen
     simpa using this
   | cons l rest =>
     simp only
